@@ -31,6 +31,10 @@ type Expr struct {
 	Parts   []InterpPart
 
 	Extra int // redundant parentheses to print around this node
+
+	// OneLine: an if that every layout writes on one line (set where the multi-line form would run into
+	// known finding D15)
+	OneLine bool
 }
 
 type FieldInit struct {
